@@ -347,7 +347,12 @@ class ADWIN(StreamingDetector):
             n_curr + self._window_size
         )
         curr_bucket_row.remove_buckets(1)
-        if curr_bucket_row.bucket_count == 0:
+        # compression can leave empty rows behind the tail (always with
+        # max_buckets=1), so drop every empty row, not only this one
+        while (
+            self._bucket_row_list.size > 1
+            and self._bucket_row_list.tail.bucket_count == 0
+        ):
             self._bucket_row_list.remove_tail()
         return n_curr
 
